@@ -58,6 +58,9 @@ func TestMain(m *testing.M) {
 
 func run(m *testing.M) int {
 	authMode = os.Getenv("VERIF_C12_MODE") != "noauth"
+	if j, ok := readJournal(os.Getenv("VERIF_REPLAY_CASE")); ok {
+		authMode = j.Mode != "noauth" // replay in the process mode the journal was written in
+	}
 
 	removeStaleRoots("verif-c12-")
 	root, err := os.MkdirTemp("/dev/shm", "verif-c12-")
